@@ -153,6 +153,38 @@ func (ex *Exec) intBinop(op token.Token, a, b *smt.Term, xt, rt types.Type) Valu
 	panic("int binop " + op.String())
 }
 
+// pow2Divisor: the largest k (capped at 4096) such that t is syntactically a multiple of 2^k.
+func pow2Divisor(t *smt.Term) uint {
+	tz := func(r *big.Rat) uint {
+		if !r.IsInt() {
+			return 0
+		}
+		if r.Sign() == 0 {
+			return 4096
+		}
+		return r.Num().TrailingZeroBits()
+	}
+	switch t.Op {
+	case smt.OConst:
+		return tz(t.Rat)
+	case smt.OSum:
+		k := tz(t.Rat)
+		for i, a := range t.Args {
+			if d := tz(t.Coef[i]) + pow2Divisor(a); d < k {
+				k = d
+			}
+		}
+		return k
+	case smt.OIte:
+		a, b := pow2Divisor(t.Args[1]), pow2Divisor(t.Args[2])
+		if b < a {
+			return b
+		}
+		return a
+	}
+	return 0
+}
+
 func isMask(v *big.Int) (uint, bool) {
 	if v.Sign() <= 0 {
 		return 0, false
@@ -197,6 +229,17 @@ func (ex *Exec) bitwise(op token.Token, a, b *smt.Term, k intKind) *smt.Term {
 			if n, ok := isMask(bv); ok {
 				return smt.Mod(a, smt.Pow2(n))
 			}
+		}
+	}
+	// operands with disjoint bit supports (a a multiple of 2^k, 0 <= b < 2^k), as in
+	// x<<16 | y<<8 | z: or and xor are plain addition
+	if op == token.OR || op == token.XOR {
+		disjoint := func(hi, lo *smt.Term) bool {
+			return lo.Lo != nil && lo.Lo.Sign() >= 0 && lo.Hi != nil && hi.Lo != nil && hi.Lo.Sign() >= 0 &&
+				hi.Hi != nil && uint(hi.Hi.BitLen()) <= k.bits && pow2Divisor(hi) >= uint(lo.Hi.BitLen())
+		}
+		if disjoint(a, b) || disjoint(b, a) {
+			return smt.Add(a, b)
 		}
 	}
 	// general case: bit decomposition over the two's complement image
@@ -909,4 +952,3 @@ func (ex *Exec) selectOp(fr *frame, x *ssa.Select) Value {
 	}
 	return res
 }
-
